@@ -173,8 +173,10 @@ def run_case(case, seed):
     k = 0
     stopped_by_tol = False
     while k < max_iter:
-        if case["tol"] and alg.done():
-            stopped_by_tol = True
+        if alg.done():
+            # "Once done, the object should not be run again" (Alg docstring): the prefixes of interest are those of the
+            # documented driver loop; with tol = 0 this only happens once the tracked residual is exactly zero
+            stopped_by_tol = bool(case["tol"])
             break
         alg.update()
         k += 1
